@@ -34,16 +34,16 @@ def canon_one(r):
 def call_list(f, arg):
     try:
         r = f(arg)
-    except Exception:
-        return "err"
+    except Exception as e:
+        return "err:" + type(e).__name__     # the class is part of the result (both paths must raise the same)
     return ["ok"] + [canon_one(x) for x in r]
 
 
 def call_keys(f, args):
     try:
         r = f(*args)
-    except Exception:
-        return "err"
+    except Exception as e:
+        return "err:" + type(e).__name__
     return canon_one(r)
 
 
@@ -106,7 +106,7 @@ def key_calls(run, C, pool):
         case = [kind, reqs[i]] if kind != "other" else [kind, type(a).__name__]
         run.case(("keylist", kind, reqs[i] if kind != "other" else type(a).__name__))
         run.count("keylist.kind", kind)
-        run.count("keylist.outcome", "err" if cc[i] == "err" else "ok")
+        run.count("keylist.outcome", cc[i] if isinstance(cc[i], str) else "ok")
         run.corr("keylist_cpp", case, cc[i], m[0])
         run.corr("keylist_py", case, py[i], m[1])
         if cc[i] != py[i]:
